@@ -2,9 +2,11 @@ package main
 
 import (
 	"fmt"
+	"os"
 	"sort"
 	"strings"
 	"sync"
+	"sync/atomic"
 	"time"
 
 	d "github.com/ostafen/clover/v2/document"
@@ -288,6 +290,55 @@ func c07QueuedWriters(c *Ctx, be string) bool {
 					return false
 				}
 			}
+		}
+	}
+	return true
+}
+
+// c07ConcurrentClose: eight goroutines close one handle at the same time (the store holds each Close it receives open
+// for a moment): the store is closed exactly once, nobody panics, and every call returns.
+func c07ConcurrentClose(c *Ctx, be string) bool {
+	for rep := 0; rep < c.N(3, 20); rep++ {
+		c.Evals++
+		im := NewImpl(be, c.Scratch)
+		im.db.CreateCollection("z")
+		im.xs.closeDelay = 15 * time.Millisecond
+		var wg sync.WaitGroup
+		var mu sync.Mutex
+		panics := []string{}
+		start := make(chan struct{})
+		for g := 0; g < 8; g++ {
+			wg.Add(1)
+			go func() {
+				defer wg.Done()
+				defer func() {
+					if r := recover(); r != nil {
+						mu.Lock()
+						panics = append(panics, fmt.Sprint(r))
+						mu.Unlock()
+					}
+				}()
+				<-start
+				im.db.Close()
+			}()
+		}
+		close(start)
+		done := make(chan struct{})
+		go func() { wg.Wait(); close(done) }()
+		select {
+		case <-done:
+		case <-time.After(20 * time.Second):
+			c.Violation(&Replay{Backend: be, Stream: "concurrent-close", Case: []interface{}{J{"k": "concurrent-close", "goroutines": 8}}, Note: "concurrent Close calls did not all return within 20 s"})
+			return false
+		}
+		n := atomic.LoadInt64(&im.xs.closeCalls)
+		im.stuck = true // closed already
+		os.RemoveAll(im.dir)
+		c.Count("concurrent-close:" + be)
+		if n != 1 || len(panics) > 0 {
+			c.Violation(&Replay{Backend: be, Stream: "concurrent-close", Case: []interface{}{J{"k": "concurrent-close", "goroutines": 8}}, Expected: []string{"the store is closed once"},
+				Actual: []string{fmt.Sprintf("the store received %d Close calls", n), strings.Join(panics, "; ")}, Note: "overlapping Close calls on one handle reached the store more than once (or panicked)"})
+			return false
 		}
 	}
 	return true
